@@ -3,6 +3,8 @@ import formula as F
 import schema as S
 import common
 import facts
+import re
+from interp import known_fns
 from common import CERT_FN, CSR_FN, CRL_FN
 from interp import core, places, calls_of, roots, Interp, CallV, PhiV, StructV, Via, MutV, Def, Const
 
@@ -90,16 +92,29 @@ def sites(crate):
 
 def audit(cfg, crate, cname, rep):
     by = {}
+    by_body = {}
+    G = None
     for owner, cons, t, body in sites(crate):
+        if owner not in known_fns(crate.name):
+            # a helper introduced by a later change: its sites belong to the (single) audited function that calls it
+            if G is None:
+                G, _ = call_graph(crate)
+            owner = attributed_owner(crate, G, owner)
         by.setdefault((cname, owner, cons), []).append(t)
+        by_body.setdefault((cname, owner, cons), []).append((owner, cons, t, body))
     n = 0
     for key, ts in sorted(by.items()):
         n += len(ts)
         ent = AUDIT.get(key)
         k = "%s|%s|%s|%s" % (cfg, key[0], key[1], key[2])
-        if ent is None and key[2] == "assert:Overflow(Mul)" and len_times_small(crate, key[1], len(ts)):
+        if ent is None and key[2] == "assert:Overflow(Mul)" and all(len_times_small(crate, bn, 1) for bn in sorted({t_[3] for t_ in by_body.get(key, [])})):
             rep.ob("C10.audit", k + "|len-times-constant", True, "overflow check of `<buffer>.len() * c` with c <= 8: an in-memory buffer is far shorter than usize::MAX / 8")
             continue
+        if ent is None and key[2].startswith(("assert:Overflow", "assert:BoundsCheck", "assert:DivisionByZero", "assert:RemainderByZero")):
+            ok_fd, why_fd = finite_discharge(crate, key[1], sorted({t_[3] for t_ in by_body.get(key, [])}), key[2])
+            if ok_fd:
+                rep.ob("C10.audit", k + "|finite-domain", True, "arithmetic / bounds check discharged by exhaustive constant propagation: " + why_fd)
+                continue
         if ent is None:
             rep.fail("C10.audit", k, "unaudited panic site: %d occurrence(s) of %s in %s; reachable panics must be replaced by an Err return or audited" % (len(ts), key[2], key[1]), sp=ts[0].get("sp"))
             continue
@@ -108,6 +123,117 @@ def audit(cfg, crate, cname, rep):
         ok, detail = mechanised(cfg, crate, key, cls, ts)
         rep.ob("C10.audit", k + "|" + cls, ok, "%s: %s%s" % (cls, reason, ("; " + detail) if detail else ""), sp=ts[0].get("sp"))
     return n
+
+
+def attributed_owner(crate, G, fn):
+    """nearest audited (known) function through which the new helper `fn` is exclusively reached"""
+    seen = set()
+    cur = fn
+    for _ in range(8):
+        if cur in known_fns(crate.name) or cur in seen:
+            return cur
+        seen.add(cur)
+        callers = sorted({c.split("::{closure")[0] for c, es in G.items() if cur in es and c.split("::{closure")[0] != cur})
+        if len(callers) != 1:
+            return fn
+        cur = callers[0]
+    return fn
+
+
+_FINITE = {"bool": 2, "u8": 256, "i8": 256, "u16": 65536, "i16": 65536}
+
+
+def _domain(crate, ty):
+    """all values of a small finite type, or None"""
+    import ceval
+    ty = (ty or "").lstrip("&").replace("mut ", "").strip()
+    if ty == "bool":
+        return [False, True]
+    if ty in ("u8", "u16"):
+        return list(range(_FINITE[ty]))
+    if ty in ("i8", "i16"):
+        h = _FINITE[ty] // 2
+        return list(range(-h, h))
+    vals = ceval.enum_values(crate, ty)
+    if vals:
+        return vals
+    m = re.match(r"^std::option::Option<(.+)>$", ty)
+    if m:
+        inner = _domain(crate, m.group(1))
+        if inner is not None:
+            return [ceval.NONE] + [ceval.Some(x) for x in inner]
+    return None
+
+
+def finite_discharge(crate, owner, body_names, construct):
+    """Prove that no arithmetic / bounds assert of `owner` can fire.
+    (a) every parameter of the function has a small finite type: the whole function is evaluated for every argument
+        tuple (<= 70000) - no Panic may occur;
+    (b) otherwise, for every arithmetic / index expression of the function, the expression alone is evaluated for every
+        value of its free local variables, which must all have small finite types.
+    Unsupported constructs make the proof fail (the site is then reported as unaudited)."""
+    import ceval
+    import itertools
+    for bn in body_names or [owner]:
+        b = crate.bodies.get(bn)
+        if b is None or "hir" not in b:
+            return False, "no HIR for %s" % bn
+        if "{closure" in bn:
+            return False, "site inside a closure"
+        doms = [_domain(crate, p_.get("ty")) for p_ in b.get("params", [])]
+        size = 1
+        for d in doms:
+            size *= len(d) if d is not None else 10 ** 9
+        if b.get("params") is not None and all(d is not None for d in doms) and size <= 70000:
+            E = ceval.Eval(crate, budget=20_000_000)
+            try:
+                for args in itertools.product(*doms):
+                    E.call(bn, list(args))
+            except ceval.Panic as e:
+                return False, "%s panics for %s: %s" % (bn, args, e)
+            except ceval.Unsupported as e:
+                return False, "not evaluable: %s" % e
+            why = "%s evaluated for all %d argument tuples without a failing check" % (bn, size)
+            continue
+        # (b) expression-level
+        kind = construct.split(":", 1)[1]
+        want_ops = {"Overflow(Add)": "+", "Overflow(Sub)": "-", "Overflow(Mul)": "*", "Overflow(Shl)": "<<", "Overflow(Shr)": ">>", "DivisionByZero": "/", "RemainderByZero": "%", "Overflow(Div)": "/", "Overflow(Rem)": "%", "Overflow(Neg)": "neg"}
+        exprs = []
+        for n in common.hir_walk(b["hir"]):
+            if kind.startswith("BoundsCheck") and n["k"] == "Index":
+                exprs.append(n)
+            elif n["k"] in ("Binary", "AssignOp") and want_ops.get(kind) == n.get("op", "").rstrip("="):
+                if ceval.int_ty(n.get("ty")) or ceval.int_ty((n.get("l") or {}).get("ty")):
+                    exprs.append(n)
+        if not exprs:
+            return False, "no matching expression found in %s" % bn
+        total = 0
+        for ex in exprs:
+            if ex["k"] == "AssignOp":
+                return False, "compound assignment"
+            free = {}
+            for m_ in common.hir_walk(ex):
+                if m_["k"] == "Path" and m_.get("res") == "local":
+                    free[m_["hid"]] = m_.get("ty")
+                if m_["k"] in ("Closure", "Ret", "Break", "Continue", "Assign", "AssignOp", "Try"):
+                    return False, "expression has control flow / effects"
+            doms = [(hid, _domain(crate, ty)) for hid, ty in sorted(free.items())]
+            size = 1
+            for _, d in doms:
+                size *= len(d) if d is not None else 10 ** 9
+            if any(d is None for _, d in doms) or size > 70000:
+                return False, "free variables of the expression at %s are not of small finite types (%s)" % (ex.get("sp"), sorted(set(free.values())))
+            E = ceval.Eval(crate, budget=20_000_000)
+            try:
+                for vals in itertools.product(*[d for _, d in doms]):
+                    E.ev(ex, {hid: v for (hid, _), v in zip(doms, vals)})
+            except ceval.Panic as e:
+                return False, "expression at %s panics for %s: %s" % (ex.get("sp"), vals, e)
+            except ceval.Unsupported as e:
+                return False, "not evaluable: %s" % e
+            total += size
+        why = "%d expression(s) of %s evaluated for all %d value tuples of their free variables" % (len(exprs), bn, total)
+    return True, why
 
 
 def len_times_small(crate, fn, count):
